@@ -223,6 +223,26 @@ func genC08(ctx *Ctx) {
 			}
 		}
 	}
+	genC08Scale(ctx, nums)
+}
+
+// (scale cases are generated by genC08Scale, called at the end of genC08)
+func genC08Scale(ctx *Ctx, nums []*variants.Variant) {
+	for _, name := range []string{"Sum", "Min", "Max", "Array", "Choose", "If"} {
+		for _, n := range []int{17, 65, 130, 300} {
+			args := make([]*variants.Variant, n)
+			for i := range args {
+				args[i] = nums[(i*5+n)%len(nums)]
+			}
+			if name == "Choose" {
+				args[0] = variants.VariantFromInteger(n - 1)
+			}
+			for _, safe := range []bool{false, true} {
+				ctx.Count("scale-arguments")
+				ctx.Input(c08Input(safe, name, args), true)
+			}
+		}
+	}
 }
 
 var fnErrCodes = map[string]int64{"WRONG_PARAM_COUNT": 6, "CALC_FAILED": 7}
